@@ -7,17 +7,19 @@ os.chdir(ROOT)
 m = json.load(open("MANIFEST.json"))
 checks = {c["property_id"]: c for c in m["checks"]}
 want = [a.upper() for a in sys.argv[1:]]
+hold = set(open("manifest/HOLD").read().split()) if os.path.exists("manifest/HOLD") else set()
 for f in sorted(glob.glob("manifest/C*.json")):
     c = json.load(open(f))
     pid = c["property_id"]
     if want and pid not in want: continue
     checks[pid] = c
+for h in hold: checks.pop(h, None)
 m["checks"] = [checks[k] for k in sorted(checks)]
 claimed = sorted(checks)
 for e in m.get("engines", []):
     e["serves_properties"] = claimed
 old_na = {x["property_id"]: x["reason"] for x in m.get("not_applicable", [])}
-m["not_applicable"] = [{"property_id": "C%02d" % i, "reason": old_na.get("C%02d" % i, "model and theorems not built in the time available")}
+m["not_applicable"] = [{"property_id": "C%02d" % i, "reason": ("check being extended/reworked at the moment; not claimed until it passes again" if "C%02d" % i in hold else old_na.get("C%02d" % i, "model and theorems not built in the time available"))}
                        for i in range(1, 35) if "C%02d" % i not in checks]
 json.dump(m, open("MANIFEST.json", "w"), indent=1)
 # known findings
